@@ -24,6 +24,21 @@ def routes(R, B, r, base, heavy=True):
         ('direct_tvm', lambda: B.Cell(bridge.tvm_bits(r.bits), list(base.refs), -1)),
         ('direct_plain', lambda: B.Cell(bitarray(r.bits), list(base.refs), -1)),
     ]
+    import copy as _copy
+    import pickle as _pickle
+
+    def loaded_bits():
+        # the bit string is what Slice.load_bits handed out (read out of a longer cell), given to the constructor as it is
+        s = B.Builder().store_bits('10' + r.bits[:1020]).end_cell().begin_parse()
+        s.skip_bits(2)
+        return s.load_bits(len(r.bits[:1020]))
+    if len(r.bits) <= 1020:
+        out.append(('direct_loaded_bits', lambda: B.Cell(loaded_bits(), list(base.refs), -1)))
+        out.append(('builder.store_bits(loaded_bits)', lambda: (lambda b: ([b.store_ref(k) for k in base.refs], b.end_cell())[1])(B.Builder().store_bits(loaded_bits()))))
+    out.append(('copy.copy', lambda: _copy.copy(base)))
+    if r.depth <= 150:
+        # Python's own deepcopy / pickle recurse once per level of any object graph: deep trees are out of their reach whatever the library does
+        out += [('copy.deepcopy', lambda: _copy.deepcopy(base)), ('pickle', lambda: _pickle.loads(_pickle.dumps(base)))]
     if len(r.bits) <= 1000 and len(r.refs) <= 3:
         # "converted from a slice": the slice is what is left of a larger cell after some bits and references were read
         pre_bits, pre_refs = '1' * (1 + len(r.bits) % 7), 1 + (len(r.bits) % (4 - len(r.refs)))
@@ -257,6 +272,18 @@ def one(R, B, r, heavy=True, sample=None):
                         dict(W, tb=traceback.format_exc()[-1500:]))
             continue
         check_cell(R, r, c, route, W)
+        # a cell obtained this way is a cell like any other: what is derived from it is the same cell again
+        if route.startswith(('direct_', 'copy.', 'pickle', 'builder.store_bits', 'consumed-slice')) or R.rng.random() < 0.15:
+            for dname, d in (('copy', lambda: c.copy()), ('begin_parse.to_cell', lambda: c.begin_parse().to_cell()), ('to_builder.end_cell', lambda: c.to_builder().end_cell()),
+                             ('Slice.from_cell.copy.to_cell', lambda: B.Slice.from_cell(c).copy().to_cell())):
+                st, c2 = mon.call(d)
+                R.count('second_order_routes')
+                if st == 'exc':
+                    R.exc(c2)
+                    R.violation(f'route-raises-{route.split("(")[0]}-then-{dname}-{type(c2).__name__}', f'{dname} of a cell obtained via {route} raised {c2!r}', W)
+                else:
+                    R.check(c2.hash == r.hash and c2.bits.to01() == r.bits and len(c2.refs) == len(r.refs), f'hash-route-{route.split("(")[0]}-then-{dname}',
+                            f'{dname} of a cell obtained via {route} is another cell', W)
     if heavy and r.depth < 900:
         st, e = mon.call(builder_reuse, R, B, r, W)
         if st == 'exc':
